@@ -48,6 +48,11 @@ def run(repo, tier) -> Result:
         else:
             res.ok("R-STATE", {"function": f"{cls}.{nm}", "why": "no write to self: the shared converter is stateless"}, nontrivial=f"{cls}.{nm}")
     res.rule("R-VN-HA", floor=8)
+    # "of the collapsed raw candles": with gap filling the inserted buckets are part of that raw series; they must be built from the
+    # previous bucket's RAW close (saved values when it is already converted), or the HA chain depends on the append schedule
+    from ..manager_rules import check_fill
+
+    check_fill("C11", res, repo)
     # "each candle is converted exactly once": the tag that marks a converted candle is cleared only where the candle is rebuilt
     check_tag_owners("C11", res, repo)
     return res
